@@ -56,6 +56,22 @@ theorem registered_means_subscribed (parse : SFrame → Except String (HCfg × R
     (s' ++ later).drop st.subAt = registeredFrame st.cfg :: later :=
   subscribed_before_announced parse name stream r s' st h later
 
+/-- a tail handler that starts was not replaced or unregistered between its `.register` and its
+    subscription - so every later `.register` / `.unregister` of its name reaches it live and
+    stops it: at most one instance per (context, name) stays active -/
+theorem started_tail_sees_all_later_traffic (parse : SFrame → Except String (HCfg × Resume)) (name : String)
+    (stream : List SFrame) (r : SFrame) (s' : List SFrame) (st : Started)
+    (h : startHandler parse name stream r = (s', some st)) (ht : st.resume = .tail) :
+    ∀ f ∈ stream, f.ctx = st.cfg.ctx → st.cfg.id < f.id → isRegTraffic st.cfg f = false :=
+  started_tail_not_superseded parse name stream r s' st h ht
+
+/-- … and one that was never starts; its stop is announced once -/
+theorem superseded_tail_never_starts (parse : SFrame → Except String (HCfg × Resume)) (name : String)
+    (stream : List SFrame) (r : SFrame) (cfg : HCfg) (f : SFrame)
+    (hp : parse r = .ok (cfg, .tail)) (hl : laterTraffic cfg stream = some f) :
+    startHandler parse name stream r = (stream ++ [unregistered cfg f none], none) :=
+  superseded_never_starts parse name stream r cfg f hp hl
+
 /-- the start-up scan keeps at most one registration per (context, name) -/
 theorem one_registration_per_key (h : List SFrame) : ((compactTable h).map (·.key)).Nodup :=
   compact_one_per_key h
